@@ -67,7 +67,7 @@ func gen(t *rapid.T) Case {
 	}
 	n := rapid.IntRange(1, maxOps).Draw(t, "nOps")
 	for i := 0; i < n; i++ {
-		k := rapid.SampledFrom([]string{"open", "open", "open", "write", "write", "close", "close", "update", "rename", "removeOld", "removeAll", "age", "openEmpty"}).Draw(t, "kind")
+		k := rapid.SampledFrom([]string{"open", "open", "open", "write", "write", "close", "close", "update", "rename", "removeOld", "removeAll", "age", "openEmpty", "rewrite", "updateOpen"}).Draw(t, "kind")
 		c.Ops = append(c.Ops, Op{
 			Kind: k, Dag: rapid.IntRange(0, nd-1).Draw(t, "dag"), Run: rapid.IntRange(0, 5).Draw(t, "run"),
 			TimeSel: rapid.SampledFrom([]int{0, 1, 2, 3, 4, 5, 0, 1, 2, 3, 4, 5, 6}).Draw(t, "timeSel"), MS: rapid.IntRange(0, 999).Draw(t, "ms"),
@@ -89,6 +89,7 @@ type mrun struct {
 	w      *jsondb.JSONDB
 	mtime  time.Time
 	nwrite int
+	lastW  *model.Status // the last status written through the run's own writer
 }
 
 type world struct {
@@ -203,7 +204,7 @@ func (w *world) apply(o Op, labels map[string]bool) *failure {
 				labels["runs-within-one-second"] = true
 			}
 		}
-		w.runs[d] = append(runs, &mrun{req: req, start: st, last: js(p), open: true, w: db, mtime: w.now, nwrite: 1})
+		w.runs[d] = append(runs, &mrun{req: req, start: st, last: js(p), open: true, w: db, mtime: w.now, nwrite: 1, lastW: p})
 	case "openEmpty":
 		// a run file that never received a status (opened and closed without a
 		// write): it records nothing and must not hide what was recorded.
@@ -228,8 +229,34 @@ func (w *world) apply(o Op, labels map[string]bool) *failure {
 		if err := r.w.Write(p); err != nil {
 			return fail("Write failed: %v", err)
 		}
-		r.last, r.nwrite = js(p), r.nwrite+1
+		r.last, r.nwrite, r.lastW = js(p), r.nwrite+1, p
 		labels["write-interleaved-with-reads"] = true
+	case "rewrite":
+		// the run reports the very same status again (nothing changed between two
+		// of its writes): still the last thing recorded
+		if len(openRuns) == 0 {
+			return nil
+		}
+		r := openRuns[o.Run%len(openRuns)]
+		if err := r.w.Write(r.lastW); err != nil {
+			return fail("Write failed: %v", err)
+		}
+		r.last, r.nwrite = js(r.lastW), r.nwrite+1
+		labels["identical-status-rewritten"] = true
+	case "updateOpen":
+		// a manual status update that lands while the run's own writer is open
+		// (a run whose process is gone but was never closed, or a racing edit)
+		if len(openRuns) == 0 {
+			return nil
+		}
+		r := openRuns[o.Run%len(openRuns)]
+		w.seq++
+		p := payload(r.req, w.names[d], o.Payload, w.seq)
+		if err := w.reader.Update(w.loc(d), r.req, p); err != nil {
+			return fail("Update(%q,%s) of an open run failed: %v", w.loc(d), r.req, err)
+		}
+		r.last = js(p)
+		labels["update-of-open-run"] = true
 	case "close":
 		if len(openRuns) == 0 {
 			return nil
